@@ -39,10 +39,13 @@ def cache_dir():
     d = os.path.join(CACHE, k)
     if not os.path.isdir(d):
         os.makedirs(CACHE, exist_ok=True)
-        # bound the disk use: keep the four most recently used keys (a concurrent run on another tree may still be using its key)
+        # bound the disk use: keys not used for 90 minutes are dropped except the three most recent ones (a concurrent run on
+        # another tree - a seeded change in a scratch worktree, a background run - keeps its key alive by touching it)
+        now = time.time()
         others = sorted((o for o in os.listdir(CACHE) if o != k and not o.startswith('_')), key=lambda o: os.path.getmtime(os.path.join(CACHE, o)), reverse=True)
         for o in others[3:]:
-            shutil.rmtree(os.path.join(CACHE, o), ignore_errors=True)
+            if now - os.path.getmtime(os.path.join(CACHE, o)) > 90 * 60:
+                shutil.rmtree(os.path.join(CACHE, o), ignore_errors=True)
         os.makedirs(d, exist_ok=True)
     else:
         try:
